@@ -202,11 +202,38 @@ pub fn operand(rng: &mut Prng, qt: QT, reg: usize, prev: &[u32], small_bias: u32
     }
 }
 
+/// number of fraction bits a positive posit pattern has room for
+fn fraction_bits(qt: QT, p: u32) -> u32 {
+    let n = qt.n();
+    let body = p & (qt.nar() - 1);
+    let r0 = (body >> (n - 2)) & 1;
+    let mut rl = 0u32;
+    while rl < n - 1 && ((body >> (n - 2 - rl)) & 1) == r0 {
+        rl += 1;
+    }
+    (n - 1).saturating_sub(rl + 1).saturating_sub(qt.es())
+}
+
 /// An image at or next to a rounding boundary: the midpoint of two adjacent posits (an exact
 /// tie), or an exact posit value, plus/minus nothing, one unit, or a single far-away bit.
 fn boundary_image(rng: &mut Prng, qt: QT) -> Option<Img> {
     let reg = [0usize, 1, 1, 2, 3, 4][rng.below(6) as usize];
-    let p = operand(rng, qt, reg, &[], 0);
+    let mut p = operand(rng, qt, reg, &[], 0);
+    if qt != QT::Q8 && rng.chance(1, 4) {
+        // limb-aligned: a posit whose leading bit sits on the top bit of a 64-bit limb of the quire
+        // (scale = 64 j + 63 - F), with random fraction bits below it
+        let limbs = (qt.w() / 64) as u64;
+        for _ in 0..4 {
+            let j = rng.below(limbs) as i32;
+            let sc = 64 * j + 63 - qt.f() as i32;
+            if let Some(b) = pow2_posit(qt, sc) {
+                let fb = fraction_bits(qt, b);
+                let mask = if fb == 0 { 0 } else { (1u32 << fb) - 1 };
+                p = b | (rng.next() as u32 & mask);
+                break;
+            }
+        }
+    }
     let mut m = if p >> (qt.n() - 1) != 0 { qt.neg_bits(p) } else { p };
     if m == 0 || m >= qt.maxpos() {
         m = qt.maxpos() - 1;
